@@ -136,9 +136,15 @@ def part_signing(ctx, wt, m, n, how, thorough):
             w_.utxo_add(addr, 1000000, txid, 0, confirmations=3)
         rep = {'op': 'sign', 'wt': wt, 'm': m, 'n': n, 'handoff': how, 'signers_in_order': seq}
         first = ws[seq[0]]
+        created_by = ctx.rng.choice(['transaction_create', 'send'])
+        rep['created_by'] = created_by
         try:
-            t = first.transaction_create([(EXT, 100000)], input_arr=[(txid, 0)], fee=5000)
-            t.sign()
+            if created_by == 'send':
+                # the usual way: send() without broadcasting creates, signs and serialises the transaction
+                t = first.send([(EXT, 100000)], input_arr=[(txid, 0)], fee=5000, broadcast=False)
+            else:
+                t = first.transaction_create([(EXT, 100000)], input_arr=[(txid, 0)], fee=5000)
+                t.sign()
         except Exception as e:
             ctx.violation('the first cosigner cannot create and sign the spend', dict(rep, error='%s: %s' % (type(e).__name__, str(e)[:80])))
             return
@@ -194,6 +200,24 @@ def part_signing(ctx, wt, m, n, how, thorough):
                 pushed = bool(PUSHED)
         ctx.traces += 1
         ctx.nontrivial.add(hash((wt, m, n, how, seq)))
+        # what was handed to the network must itself be the complete spend: at least m signatures, and it verifies
+        broadcast_problem = None
+        if PUSHED:
+            from bitcoinlib.transactions import Transaction
+            try:
+                bt = Transaction.parse_hex(PUSHED[-1], network='bitcoin')
+                for bi in bt.inputs:
+                    bi.value = 1000000
+                nsig_b = len(bt.inputs[0].signatures)
+                if nsig_b < m or not bt.verify():
+                    broadcast_problem = 'the broadcast bytes carry %d signature(s) / do not verify (needed %d)' % (nsig_b, m)
+                elif bt.inputs[0].redeemscript.hex() != script:
+                    broadcast_problem = 'the broadcast bytes use another redeem script'
+            except Exception as e:
+                broadcast_problem = 'the broadcast bytes do not parse: %s' % type(e).__name__
+        if broadcast_problem:
+            ctx.violation('a multisig spend was broadcast without the required signatures in the bytes sent', dict(rep, trace=trace, problem=broadcast_problem,
+                                                                                                           raw=PUSHED[-1][:200]))
         good = ok and pushed == expect_valid
         if not good:
             rep.update(trace=trace, pushed=pushed, expected_valid=expect_valid, signatures_needed=m)
